@@ -578,3 +578,73 @@ func scenarioDeposedTail(o *common.Opts, idx int, st *stats, tag string) string 
 	st.scenarios++
 	return ""
 }
+
+// scenarioLossyPosts (C07): for a few seconds the peers cannot keep their streams and every message travels as a POST
+// of its own whose response is lost after the message was delivered (the connection just ends). A sender cannot tell
+// "lost" from "delivered": whatever it does about that, a command forwarded to the leader must take effect at most
+// once and every acknowledged command exactly once.
+func scenarioLossyPosts(o *common.Opts, idx int, st *stats) string {
+	dir := filepath.Join(o.Work, fmt.Sprintf("c07l-%d", idx))
+	c, err := cluster.New(dir, 3, false, nil)
+	if err != nil {
+		return err.Error()
+	}
+	defer c.Stop()
+	if !*fKeep {
+		defer os.RemoveAll(dir)
+	}
+	if err := c.StartAll(); err != nil {
+		return "start: " + err.Error()
+	}
+	if !c.WaitAllWritable(90 * time.Second) {
+		return "cluster did not become writable"
+	}
+	r := rand.New(rand.NewSource(o.Seed*2750159 + int64(idx)))
+	w := newWorkload(c)
+	w.rate = 300
+	w.readers = 1
+	// the first message a node writes into a stream that has just died is lost (and the command never answered):
+	// clients give up quickly here and their successors' commands travel as POSTs
+	w.opTimeout = 1200 * time.Millisecond
+	w.retry = 5 * time.Millisecond
+	wg := w.run(2, o.Seed*15013+int64(idx))
+	time.Sleep(time.Duration(1000+r.Intn(800)) * time.Millisecond)
+	for round := 0; round < 2; round++ {
+		w.pnMu.Lock()
+		before := map[int]int64{}
+		for k, v := range w.perNode {
+			before[k] = v
+		}
+		w.pnMu.Unlock()
+		dropped := c.LossyPosts()
+		st.nemesis++
+		st.kinds["lossy-posts"]++
+		defer func() {
+			if os.Getenv("VERIF_DEBUG") != "" {
+				w.pnMu.Lock()
+				fmt.Printf("DEBUG lossy-posts: leader %d; acknowledged per node before %v, at the end %v\n", currentLeader(c), before, w.perNode)
+				w.pnMu.Unlock()
+			}
+		}()
+		time.Sleep(time.Duration(3000+r.Intn(1500)) * time.Millisecond)
+		st.droppedResponses += int(dropped())
+		st.droppedProposals = int(c.DroppedProposals())
+
+		c.Heal()
+		time.Sleep(time.Duration(1500+r.Intn(1000)) * time.Millisecond)
+	}
+	atomic.StoreInt32(&w.stop, 1)
+	wg.Wait()
+	st.open += int(w.timeouts)
+	ok, why := quiesce(c, w.led, "c07", 240*time.Second)
+	checkElectionLog(c, st, "c07")
+	if !ok && why == "cluster did not serve writes within the bound" {
+		if len(bySigSnapshot()) > 0 {
+			return ""
+		}
+		return why + clusterDiag(c)
+	}
+	checkLinearizable(w, st, "c07")
+	st.scenarios++
+	return ""
+}
